@@ -373,8 +373,9 @@ class Check:
             'coverage': cov, 'assumptions': self.assumptions + ['stub: ' + s for s in self.stubs],
             'wall_s': round(wall, 2), 'violations': len(self.violations),
         }
-        os.makedirs(os.path.join(VERIF, 'evidence'), exist_ok=True)
-        with open(os.path.join(VERIF, 'evidence', f'{self.pid}.json'), 'w') as f:
+        evdir = os.environ.get('VERIF_EVIDENCE_DIR') or os.path.join(VERIF, 'evidence')      # override: trial runs against a scratch tree
+        os.makedirs(evdir, exist_ok=True)
+        with open(os.path.join(evdir, f'{self.pid}.json'), 'w') as f:
             json.dump(jsonable(ev), f, indent=1, sort_keys=True)
         print(f'[{self.pid}] tier={tier()} obligations={cov["obligations"]} {cnt} paths={self.paths} '
               f'solver={cov["solver_time_s"]}s wall={round(wall, 1)}s', flush=True)
@@ -398,8 +399,10 @@ def run_main(fn):
         sys.exit(HARNESS_ERROR)
 
 
-def pmap(fn, jobs, procs=None):
-    """run fn over jobs in forked worker processes; fn returns a list of result dicts"""
+def pmap(fn, jobs, procs=None, job_seconds=None):
+    """run fn over jobs in forked worker processes; fn returns a list of result dicts.  A job that exceeds the hard wall limit
+    (VERIF_JOB_SECONDS, default 900 s, measured from the moment its result is awaited) is reported as `unknown`
+    and its worker is killed when the pool is torn down -- never counted as held."""
     import multiprocessing as mp
     procs = procs or ncpu()
     if procs == 1 or len(jobs) <= 1:
@@ -407,11 +410,21 @@ def pmap(fn, jobs, procs=None):
         for j in jobs:
             out.extend(_safe(fn, j))
         return out
+    limit = job_seconds or float(os.environ.get('VERIF_JOB_SECONDS', '900'))
     ctx = mp.get_context('fork')
-    with ctx.Pool(min(procs, len(jobs))) as pool:
-        out = []
-        for r in pool.imap_unordered(_Safe(fn), jobs, chunksize=1):
-            out.extend(r)
+    pool = ctx.Pool(min(procs, len(jobs)))
+    out = []
+    try:
+        pending = [(j, pool.apply_async(_Safe(fn), (j,))) for j in jobs]
+        for j, ar in pending:
+            try:
+                out.extend(ar.get(timeout=limit))
+            except mp.TimeoutError:
+                out.append({'harness': f'job {str(j)[:80]}', 'name': 'hard wall limit', 'status': 'unknown',
+                            'detail': f'no result within {limit:.0f} s: not explored'})
+    finally:
+        pool.terminate()
+        pool.join()
     return out
 
 
